@@ -6,6 +6,21 @@ VERIF = os.path.dirname(os.path.dirname(os.path.abspath(__file__)))
 PY = '/venv/bin/python'
 
 CHECKS = {
+    'C01': dict(
+        level='model_checking', technique='explicit-state BFS over declaration sequences + exhaustive element products x pairwise-complete style sets, expected model known by construction',
+        text='Every abstract element of the per-kind feature products is written by an independent DBML writer under every style of a pairwise-complete '
+             'style set and parsed by the real parser; the derivation BFS enumerates every sequence of top-level declarations up to the depth bound '
+             '(every textual order) with the parser as transition function and canon(parse(text)) == model as the invariant in every well-formed state.',
+        note='Trusts verif/writer.py to emit DBML by the language rules and verif/canon.py to read public attributes. Alias keyword `as` and `ref:` only lower-case; '
+             'bare reserved words only where the frozen BARE_EXCLUDED table admits them. Two recorded findings (dotted names, comma in column name).',
+        design='DESIGN.md §3 C01'),
+    'C02': dict(
+        level='exploration', technique='exhaustive enumeration of the C01 model spaces through API-built and parsed routes, three render/parse cycles, differential oracle',
+        text='Every element of the C01 products, every identifier shape at every name position and every well-formed BFS state is taken through '
+             'render -> parse -> render -> parse -> render; content equality, byte-identical fixpoint and absence of drift are decided for each.',
+        note='Comments stripped (C14). Relative order of inline vs standalone refs is not compared (DBML cannot express it). Four recorded findings '
+             '(falsy defaults, keyword-like string defaults, multi-line text in settings position, dotted/comma names) matched by narrow shape predicates.',
+        design='DESIGN.md §3 C02'),
     'C18': dict(
         level='exploration', technique='exhaustive enumeration of all labelled DAGs (n<=4/5) x edge kinds, SQL read back by independent DDL reader',
         text='Every labelled DAG of inline references on up to 4 (quick) / 5 (thorough) tables with every assignment of kinds >,<,- is built, '
